@@ -3965,7 +3965,10 @@ namespace jsonschema {
                         {
                             //std::cout << "Not in evaluated properties: " << prop.key() << "\n";
                             const std::size_t error_count = reporter.error_count();
-                            walk_state result = schema_val_->validate(this_context, prop.value() , instance_location, results, reporter, patch);
+                            // the subschema is applied to the member value: what it evaluates there is no concern of this object
+                            eval_context<Json> prop_context{this_context, prop.name(), evaluation_flags{}};
+                            jsonpointer::json_pointer prop_location = instance_location / prop.name();
+                            walk_state result = schema_val_->validate(prop_context, prop.value() , prop_location, results, reporter, patch);
                             if (result == walk_state::abort)
                             {
                                 return result;
